@@ -324,9 +324,9 @@ def run(ctx):
     from d42 import optional
     from d42.utils import rollout
     r = ctx.rng
-    n_tree = ctx.scale(420, 6000)
-    n_corner = ctx.scale(120, 1500)
-    n_generic = ctx.scale(260, 4000)
+    n_tree = ctx.scale(420, 20000)
+    n_corner = ctx.scale(120, 4000)
+    n_generic = ctx.scale(260, 10000)
     maxdepth = ctx.scale(4, 5)
 
     tr_terms, tr_meta = [], []
